@@ -549,6 +549,24 @@ def run(ctx: Context) -> None:
     unfiltered = "RUNNERS(unfiltered)" in got
     roles = {k: v.replace("(unfiltered)", "") for k, v in roles.items()}
     ctx.add("R1", "should_run_atomic_service::arguments-are-clock-interval-margin-eligible-runners", got == want and len(roles) == 5, entry.loc(call), "" if got == want else ("the runner list is not restricted to runners eligible for the global services: positions are computed over runners that never ask" if unfiltered else f"roles passed: {roles}"))
+    # the two configured quantities reach the arithmetic as configured: a ConfigField maps every assigned value to the TYPE of
+    # its default (cistell: `mapper(value, type(default))`), so an int default truncates a configured 0.5 to 0
+    for opt in ("atomic_service_interval_minutes", "atomic_service_spread_margin_minutes"):
+        decl = None
+        for c_ in repo.classes.values():
+            if not c_.module.name.startswith("pynenc.conf"):
+                continue
+            for st in c_.node.body:
+                if isinstance(st, (ast.Assign, ast.AnnAssign)):
+                    tg = st.targets[0] if isinstance(st, ast.Assign) else st.target
+                    if isinstance(tg, ast.Name) and tg.id == opt and isinstance(st.value, ast.Call) and call_name(st.value) == "ConfigField":
+                        decl = (c_, st)
+        if decl is None:
+            raise AnalysisError(f"anchor-vanished: ConfigField declaration of {opt}")
+        c_, st = decl
+        d0 = st.value.args[0] if st.value.args else None
+        okf = isinstance(d0, ast.Constant) and isinstance(d0.value, float)
+        ctx.add("R1", f"conf::{opt}::default-is-a-float", okf, f"{c_.module.relpath}:{st.lineno}", "" if okf else f"ConfigField({ast.unparse(d0) if d0 is not None else ''}) - a configured fractional value is cast to {type(d0.value).__name__ if isinstance(d0, ast.Constant) else '?'}: a margin of 0.5 minutes becomes 0 and neighbouring windows touch although a gap was configured")
     if not want <= set(roles.values()):
         raise AnalysisError(f"C12: cannot resolve the roles of the arguments of can_run_atomic_service: {roles}")
     env = {}
@@ -574,6 +592,21 @@ def run(ctx: Context) -> None:
             n_ord += 1
             ctx.add("R1", i.key.split("/", 2)[2], i.ok, i.where, i.detail)
     ctx.floor("R1", "active-runner listing obligations", n_ord, 3)
+
+    # the asking runner is in the list it asks about: its own heartbeat is written on every check, and a failed write is an
+    # error (shared with C04/R4) - otherwise `position` is computed for a list without the asker
+    from . import c04
+
+    sub4 = Context("C04", repo, ctx.tier, ctx.seed)
+    sub4._resolver = ctx._resolver
+    c04.r4(sub4)
+    n_hb = 0
+    for i in sub4.instances:
+        k_ = i.key.split("/", 2)[2]
+        if "own-heartbeat" in k_:
+            n_hb += 1
+            ctx.add("R1", k_, i.ok, i.where, i.detail)
+    ctx.floor("R1", "own-heartbeat obligations", n_hb, 2)
 
     # ---- fold can_run_atomic_service
     paths = it.block(target.node.body, [Path(env=env)])
@@ -659,6 +692,11 @@ def run(ctx: Context) -> None:
             ctx.add("R4", f"can_run_atomic_service::denied-only-for-unlisted-runner[exit {n_false}]", okc, twhere, "" if okc else f"a listed runner is denied whenever {[(repr(q), r) for q, r in ar]}: it never gets a window in those configurations")
         elif c.ret is True:
             pass
+        elif isinstance(c.ret, Opaque) and c.ret.tag == "compare" or (isinstance(c.ret, tuple) and c.ret and c.ret[0] == "CMP"):
+            # the answer on this path is a comparison that does not mention the clock: under the path's (opaque) conditions
+            # the runner is authorised whatever the instant is - the window test was bypassed (e.g. the clock was replaced by
+            # a window bound before the comparison)
+            ctx.fail("R2", f"can_run_atomic_service::answer-is-a-window-test-of-the-clock[{'; '.join(c.opaque)[:80]}]", twhere, f"under `{'; '.join(c.opaque)[:120]}` the function returns a comparison in which the clock does not occur: at those instants the runner is authorised without its window being consulted - with the neighbouring runner still inside its own window two runners are authorised together")
         else:
             raise AnalysisError(f"C12: a path of can_run_atomic_service returns {c.ret!r}")
     # R5 single runner
@@ -672,7 +710,7 @@ def run(ctx: Context) -> None:
     ctx.floor("R3", "margin obligations", ctx.count("R3"), 2)
     ctx.floor("R4", "presence obligations", ctx.count("R4"), 6)
     ctx.exhaustive = True
-    ctx.assumptions += [
+    ctx.assumptions += ["cistell.ConfigField casts an assigned value to the type of the declared default (third-party, read once: `self._mapper(value, type(self._default_value))`)", 
         "interval > 0, margin >= 0 (configuration), N = number of listed runners > 0, 0 <= p <= N-1",
         "R2-R5 over the rationals; R6 adds the one floating-point fact the exclusion needs (order of touching bounds); N < 2^40",
         "all runners are given the same ordered list and read the same clock",
